@@ -129,9 +129,12 @@ Proof. apply all_fresh_changed. Qed.
 Lemma all_fresh_cadd k s : all_fresh (cadd k s).
 Proof. destruct k; unfold all_fresh; cbn; auto. Qed.
 
-Lemma cstep_fresh k s o : keeps_fresh k o = true -> all_fresh s -> all_fresh (cstep k s o).
+Lemma all_fresh_raw k s : all_fresh (raw_iadd k s).
+Proof. destruct k; unfold all_fresh; cbn; auto. Qed.
+
+Lemma cstep_fresh k s o : all_fresh s -> all_fresh (cstep k s o).
 Proof.
-  intros Hk [A [B [C D]]].
+  intros [A [B [C D]]].
   destruct o as [| | | | | | | | |b|b|b|b| |]; cbn [cstep].
   - apply all_fresh_changed.
   - apply all_fresh_cadd.
@@ -139,7 +142,7 @@ Proof.
   - repeat split; assumption.
   - apply all_fresh_cadd.
   - apply all_fresh_cadd.
-  - destruct k; [discriminate|apply all_fresh_raw_dic].
+  - apply all_fresh_raw.
   - apply all_fresh_cleared.
   - repeat split; assumption.
   - unfold all_fresh. destruct b; cbn; (split; [first [reflexivity|exact I]|split; [exact B|split; [exact C|exact D]]]).
@@ -152,11 +155,16 @@ Proof.
     destruct (t_h s) eqn:Eh; cbn; rewrite ?Eh, ?Ei; repeat split; try assumption; try exact I.
 Qed.
 
-Lemma crun_fresh k ops : forall s, Forall (fun o => keeps_fresh k o = true) ops -> all_fresh s -> all_fresh (crun k s ops).
+Lemma crun_fresh k ops : forall s, all_fresh s -> all_fresh (crun k s ops).
 Proof.
-  induction ops as [|o ops IH]; intros s Hf Hs; [exact Hs|].
-  inversion Hf; subst. cbn [crun fold_left]. apply IH; [assumption|]. apply cstep_fresh; assumption.
+  induction ops as [|o ops IH]; intros s Hs; [exact Hs|].
+  cbn [crun fold_left]. apply IH. apply cstep_fresh. exact Hs.
 Qed.
+
+Lemma raw_iadd_clears k s :
+  t_e (raw_iadd k s) = None /\ t_g (raw_iadd k s) = None /\ t_h (raw_iadd k s) = None /\ t_hinv (raw_iadd k s) = None /\
+  ver (raw_iadd k s) = S (ver s).
+Proof. destruct k; cbn; repeat split. Qed.
 
 (* ================================================================================================
    D. index layout
